@@ -819,7 +819,9 @@ RULE = ("one run = a valid truth layout + either (a) the same layout with 1-3 no
         "allocation failure placed inside operations, each followed by a recovery attempt. distinct = hash of (topology classes, cache policy, declared "
         "form/length, op-class and fault sequence); non-trivial = at least 3 events")
 REQUIRED_PROBES = {"quick": ["recovered_after_allocation_failure", "operations_compared", "metadata_compared", "final_reads_compared", "partition_at_compared",
-                             "partition_range_compared", "repartitions_compared", "recovery_attempts"],
+                             "partition_range_compared", "repartitions_compared", "recovery_attempts",
+                             "metadata_compared_after_failed_generation", "longer_generation_not_visible",
+                             "generator_returns_record_fields_in_another_order", "no_initial_read"],
                    "thorough": ["operations_compared", "metadata_compared", "final_reads_compared", "partition_at_compared",
                                 "partition_range_compared", "repartitions_compared", "recovery_attempts"]}
 
